@@ -46,7 +46,7 @@ for p in props:
         },
         "level_note": ("Trusted base: Go type checker, go/ssa (x/tools v0.29.0); documented contracts of context, grpc/status, "
                        "grpc/metadata, protobuf, encoding/base64 used as axioms; the role/guard/queue/shape tables frozen in the checker "
-                       "(one reason per entry, re-validated against the tree each run); callbacks listed non-blocking are."),
+                       "(one reason per entry, re-validated against the tree each run); callbacks listed non-blocking are; the in-memory source normalisation of DESIGN 8.10 (rename overlay, splicing of new helper functions into their callers, reclosure — the overlay must type-check, what was rewritten is printed and recorded in the evidence) preserves behaviour except that a spliced helper's `defer x.Unlock()` is replayed at its exits and would not run on a panic inside it."),
         "technique": techniques[pid],
     })
 m = {
